@@ -18,7 +18,7 @@
 (*                 served the spectrum of its own model.                   *)
 (***************************************************************************)
 EXTENDS Godambe, TLC
-CONSTANTS MaxDepth, Dims, KeyHoldsRef, Addrs
+CONSTANTS MaxDepth, Dims, KeyHoldsRef, Addrs, FullBoots
 
 VARIABLES st, depth
 vars == <<st, depth>>
@@ -70,60 +70,64 @@ L_GradOneSided == \A i \in 1..Len(st.p) : OneSided(st.p[i], st.eps) =>
 BasisPool == <<<<"1", "2", "3", "1/2">>, <<"3", "1", "1/2", "2">>, <<"1", "1", "1", "1">>>>
 DataPool  == <<<<"4", "7", "5", "2">>, <<"6", "3", "9", "1">>, <<"2", "8", "4", "3">>, <<"5", "5", "1", "6">>, <<"9", "2", "6", "4">>>>
 LivePool  == {<<TRUE, TRUE, TRUE, TRUE>>, <<TRUE, TRUE, TRUE, FALSE>>}
-Models == {[B |-> <<BasisPool[a]>>, p |-> <<pa>>, multinom |-> mn, live |-> lv] :
+Fixed(mn) == IF mn THEN <<"1", "1/2", "2", "1">> ELSE <<"0", "0", "0", "0">>
+Models == {[B0 |-> Fixed(mn), B |-> <<BasisPool[a]>>, p |-> <<pa>>, multinom |-> mn, live |-> lv] :
               a \in 1..2, pa \in {"1", "3/2"}, mn \in BOOLEAN, lv \in LivePool}
-          \cup {[B |-> <<BasisPool[a], BasisPool[b]>>, p |-> <<pa, pb>>, multinom |-> mn, live |-> lv] :
+          \cup {[B0 |-> Fixed(mn), B |-> <<BasisPool[a], BasisPool[b]>>, p |-> <<pa, pb>>, multinom |-> mn, live |-> lv] :
                   a \in {1}, b \in {2, 3}, pa \in {"1", "3/2"}, pb \in {"2", "1/3"}, mn \in BOOLEAN, lv \in LivePool}
 Perms(n) == {q \in [1..n -> 1..n] : \A i, j \in 1..n : i # j => q[i] # q[j]}
 InitStats == /\ depth = -1
              /\ \E md \in Models : st = [md |-> md, d |-> DataPool[1], boots |-> <<DataPool[2], DataPool[3], DataPool[4]>>,
                                          adj |-> <<"1", "1", "1">>]
 ChooseStats == /\ depth = -1 /\ depth' = 0
-               /\ \E d \in 1..2 : \E bs \in {q \in [1..3 -> 2..5] : q[1] # q[2] /\ q[2] # q[3] /\ q[1] # q[3]} :
+               /\ \E d \in 1..2 : \E bs \in {q \in [1..3 -> 2..5] : IF FullBoots THEN q[1] # q[2] /\ q[2] # q[3] /\ q[1] # q[3] ELSE q[1] < q[2] /\ q[2] < q[3]} :
                   \E ad \in {<<"1", "1", "1">>, <<"1", "9/10", "6/5">>} :
                      /\ (st.md.multinom => ad = <<"1", "1", "1">>)
                      /\ st' = [st EXCEPT !.d = DataPool[d], !.boots = [k \in 1..3 |-> DataPool[bs[k]]], !.adj = ad]
 SpecStats == InitStats /\ [][ChooseStats]_vars
 
 Th  == IF st.md.multinom THEN ThetaFit(st.md, st.d) ELSE "1"
+DS  == Design(st.md, Th)
 PermSeq(s, q) == [k \in 1..Len(s) |-> s[q[k]]]
 LrtOf(H, J)   == RDiv(RInt(Len(H)), MTrace(MMul(J, MInv(H))))
-L_InfoSym == LET th == Th IN IsSym(InfoMat(st.md, th, st.d)) /\ IsSym(JMat(st.md, th, st.boots, st.adj))
+L_InfoSym == LET ds == DS IN IsSym(InfoMat(ds, st.d)) /\ IsSym(JMat(ds, st.boots, st.adj))
 \* the information matrix is minus the derivative of the score: exact difference quotient identity
 \*   (g_a(p + t e_b) - g_a(p)) / t = - sum_i d_i B_a B_b / (m_i(p) m_i(p + t e_b))      (plain linear model)
 L_ScoreInfo == (~st.md.multinom) => \A a, b \in 1..Len(st.md.p) : \A t \in {"1/2", "1/1000"} :
-                  LET md2 == [st.md EXCEPT !.p[b] = RAdd(@, t)] IN
-                  RDiv(RSub(ScoreCF(md2, "1", st.d, "1", a), ScoreCF(st.md, "1", st.d, "1", a)), t)
-                    = RNeg(RSum([i \in LiveSet(st.md) |-> RDiv(RMul(st.d[i], RMul(st.md.B[a][i], st.md.B[b][i])),
-                                                                 RMul(Mean(st.md, "1", i), Mean(md2, "1", i)))]))
+                  LET md2 == [st.md EXCEPT !.p[b] = RAdd(@, t)]
+                      ds1 == Design(st.md, "1") ds2 == Design(md2, "1")
+                  IN  RDiv(RSub(ScoreVec(ds2, st.d, "1")[a], ScoreVec(ds1, st.d, "1")[a]), t)
+                        = RNeg(RSum([i \in LiveSet(st.md) |-> RDiv(RMul(st.d[i], RMul(st.md.B[a][i], st.md.B[b][i])),
+                                                                     RMul(ds1.mu[i], ds2.mu[i]))]))
 \* at the fitted theta the theta-score of the data vanishes (multinom), and data = mean has zero score
-L_ThetaScoreZero == st.md.multinom => LET th == Th IN RIsZero(ScoreCF(st.md, th, st.d, "1", NPar(st.md)))
-L_FitScoreZero   == LET th == Th m == [i \in 1..4 |-> Mean(st.md, th, i)] IN
-                    \A a \in 1..NPar(st.md) : RIsZero(ScoreCF(st.md, th, m, "1", a))
+L_ThetaScoreZero == st.md.multinom => LET ds == DS IN RIsZero(ScoreVec(ds, st.d, "1")[NPar(st.md)])
+L_FitScoreZero   == LET ds == DS IN \A a \in 1..NPar(st.md) : RIsZero(ScoreVec(ds, ds.mu, "1")[a])
+\* the positive parts dominate, and coincide with information / score part where all terms are positive
+L_PosParts == LET ds == DS H == InfoMat(ds, st.d) P == InfoPos(ds, st.d) IN
+              \A a, b \in 1..NPar(st.md) : (~st.md.multinom => H[a][b] = P[a][b]) /\ RNonNeg(P[a][b]) /\ (a <= Len(st.md.p) /\ b <= Len(st.md.p) => H[a][b] = P[a][b])
 \* exact linear algebra: inverse, Godambe sandwich
-L_Inverse  == LET H == InfoMat(st.md, Th, st.d) IN Invertible(H) => MMul(H, MInv(H)) = MId(NPar(st.md))
-L_Sandwich == LET H == InfoMat(st.md, Th, st.d) IN Invertible(H) => GodambeMat(H, H) = H
+L_Inverse  == LET H == InfoMat(DS, st.d) IN Invertible(H) => MMul(H, MInv(H)) = MId(NPar(st.md))
+L_Sandwich == LET H == InfoMat(DS, st.d) IN Invertible(H) => GodambeMat(H, H) = H
 \* statistics do not depend on the order of the bootstraps: J and cU are invariant, and the Godambe matrix, the LRT
 \* adjustment and the score statistic are functions of (H, J, cU) only
 L_PermInvariant ==
-    LET th == Th
-        J0 == JMat(st.md, th, st.boots, st.adj)
-        c0 == CUVec(st.md, th, st.boots, st.adj)
+    LET ds == DS
+        J0 == JMat(ds, st.boots, st.adj)
+        c0 == CUVec(ds, st.boots, st.adj)
     IN  \A q \in Perms(3) :
            LET bs == PermSeq(st.boots, q) ad == PermSeq(st.adj, q) IN
-           JMat(st.md, th, bs, ad) = J0 /\ CUVec(st.md, th, bs, ad) = c0
+           JMat(ds, bs, ad) = J0 /\ CUVec(ds, bs, ad) = c0
 L_StatsOfHJ ==
-    LET th == Th
-        H  == InfoMat(st.md, th, st.d)
-        J0 == JMat(st.md, th, st.boots, st.adj)
-        J1 == JMat(st.md, th, PermSeq(st.boots, <<3, 1, 2>>), PermSeq(st.adj, <<3, 1, 2>>))
-        c1 == CUVec(st.md, th, PermSeq(st.boots, <<2, 3, 1>>), PermSeq(st.adj, <<2, 3, 1>>))
-        c0 == CUVec(st.md, th, st.boots, st.adj)
+    LET ds == DS
+        H  == InfoMat(ds, st.d)
+        J0 == JMat(ds, st.boots, st.adj)
+        J1 == JMat(ds, PermSeq(st.boots, <<3, 1, 2>>), PermSeq(st.adj, <<3, 1, 2>>))
+        c1 == CUVec(ds, PermSeq(st.boots, <<2, 3, 1>>), PermSeq(st.adj, <<2, 3, 1>>))
+        c0 == CUVec(ds, st.boots, st.adj)
     IN  (Invertible(J0) /\ Invertible(H)) =>
            /\ GodambeMat(H, J1) = GodambeMat(H, J0) /\ IsSym(GodambeMat(H, J0))
            /\ LrtOf(H, J1) = LrtOf(H, J0)
            /\ Quad(c1, MInv(J1), c1) = Quad(c0, MInv(J0), c0)
-           /\ RNonNeg(Quad(c0, MInv(H), c0))
 \* the mixture tail: weights (0,1) give the plain chi-square tail, weight on zero d.o.f. only counts for x > 0
 L_Chi2 == /\ Chi2MixTail("3", <<"0", "1">>, <<"9/10">>) = "1/10"
           /\ Chi2MixTail("3", <<"1/2", "1/2">>, <<"9/10">>) = "1/20"
